@@ -6,11 +6,13 @@
    toplevel; GETFIELD reads TYPE / NAME of the innermost block, else the nearest enclosing block that
    has the field.  Variables never enter a field map (they live on the operand stack: GETLOCAL/SETLOCAL
    do not touch bstack -- see exec_op).  That the compiler emits exactly these instructions for `def`
-   and field assignments is part of T2 (tested by t2check, proof in progress). *)
+   and field assignments, and that the blocks returned are those the definitions of the source denote, is
+   C03_language (T1 and T2 composed): rr_blocks = the `results` of the big-step semantics of the tree. *)
 From RecordUpdate Require Import RecordSet.
 Import RecordSetNotations.
 From BCL Require Import Model.Vm Proofs.VmSpecProofs.
 Open Scope N_scope.
+From BCL Require Import Model.Api Model.Compile Spec.Syntax Spec.AstSem Proofs.ParserInvProofs Proofs.T2Expr Proofs.T2Proofs Proofs.T1Expr Proofs.T1Proofs Proofs.Language.
 
 Theorem C03_setfield : forall p m i m1 name t n fs up a stk,
   read_uvarint m = Some (i, m1) -> get_const p i = Some (VStr name) ->
@@ -74,6 +76,19 @@ Theorem C03_block_find_spec : forall k bstk v,
     Forall (fun b => match b with VBlock _ _ fs' => fields_get k fs' = None | _ => True end) pre.
 Proof. first [exact VmSpecProofs.C03_block_find_spec | apply VmSpecProofs.C03_block_find_spec]. Qed.
 Print Assumptions C03_block_find_spec.
+
+(* the blocks (and everything else observable) are those of the semantics of the source's tree *)
+Theorem C03_language : forall name src,
+  let pr := parse_whole name src in
+  let ts := fst (lex [src]) in
+  pr_ok pr = true -> pr_oof pr = false -> pr_panic pr = false ->
+  ps_constants (pr_stats pr) < 2^64 ->
+  exists p, ast_program ts = Some p /\
+    let rr := execute (pr_prog pr) false false in
+    limit_res (rr_res rr) \/
+    (res_match (fst (run_program p)) (rr_res rr) /\ obs_match (snd (run_program p)) rr).
+Proof. first [exact Language.bcl_language | apply Language.bcl_language]. Qed.
+Print Assumptions C03_language.
 
 From BCL Require Import Model.Api.
 Example C03_example :
